@@ -13,6 +13,7 @@ from typing import List, TypeVar
 
 from pyanalyze.annotated_types import Gt
 from pyanalyze.value import (
+    CallableValue,
     NO_RETURN_VALUE,
     AnnotatedValue,
     AnySource,
@@ -52,7 +53,7 @@ BOUNDS = {
               "typevar_map": "T -> int | Literal[payload] | str"},
     "thorough": {"shapes": "20 shapes; all pairs; half of the triples over 9 shapes", "payloads": "ints in [-1, 1] plus True / 1.0", "typevar_map": "same"},
 }
-OUTSIDE = ["CallableValue / protocols (signature comparison is C07)", "payloads outside the stated range (hashing realises them)"]
+OUTSIDE = ["protocols; assignability between callables (C07) - CallableValue takes part in the union / hash laws only", "payloads outside the stated range (hashing realises them)"]
 STUBS = []
 ASSUMPTIONS = ["membership of a witness object is pyanalyze's own acceptance of KnownValue(o): the law checked is consistency of uniting with acceptance, not an external membership model (that is C03)"]
 
@@ -64,7 +65,7 @@ class A:
 
 
 SHAPES = ["lit", "litb", "litf", "lits", "ulit", "int", "str", "gen", "seq", "dinc", "td", "ann", "sub", "tv", "u2", "utv", "never", "any",
-          "annu", "annau", "gtv", "tdab", "tdba", "fn"]
+          "annu", "annau", "gtv", "tdab", "tdba", "fn", "cbl1", "cbl2"]
 
 
 def _helper_fn(a: int) -> int:
@@ -112,6 +113,13 @@ def mk(shape: str, x):
                               [CustomCheckExtension(Gt(5))])
     if shape == "gtv":  # list[T] | list[int]: a type variable nested inside a member, no bare type-variable member
         return MultiValuedValue([GenericValue(list, [TypeVarValue(T)]), GenericValue(list, [TypedValue(int)]), KnownValue(None)])
+    if shape in ("cbl1", "cbl2"):
+        # the same callable type recorded for two different functions (Signature.callable is not part of equality)
+        from pyanalyze.signature import ParameterKind, Signature, SigParameter
+
+        sig = Signature.make([SigParameter("a", ParameterKind.POSITIONAL_OR_KEYWORD, annotation=TypedValue(int))], KnownValue(x),
+                             callable=_helper_fn if shape == "cbl1" else None)
+        return CallableValue(sig)
     if shape == "fn":  # a function literal: substitution wraps it in KnownValueWithTypeVars, which must stay the same value
         return KnownValue(_helper_fn)
     if shape == "tdab":  # the same two-key TypedDict written in two key orders: equal values
